@@ -179,6 +179,24 @@ Theorem C06_query_size_in_plain_terms : forall kvs,
 Proof. exact CodecDecQueryCostProofs.query_size_plain. Qed.
 Print Assumptions C06_query_size_in_plain_terms.
 
+(* the time clause as one statement: both entry points, instrumented copies equal to the models, step counts
+   linear in the size of the input *)
+Definition C06_time_statement : Prop :=
+  (forall orc e root bs,
+     fst (CodecDecCost.decode_document_c orc e root bs) = decode_document orc e root bs /\
+     (snd (CodecDecCost.decode_document_c orc e root bs) <= length bs + 1)%nat) /\
+  (forall orc e root kvs,
+     fst (CodecDecQueryCost.decode_query_c orc e root kvs) = decode_query orc e root kvs /\
+     (snd (CodecDecQueryCost.decode_query_c orc e root kvs) <= CodecDecQueryCost.query_size kvs)%nat).
+Theorem C06_time_clause_step_counts : C06_time_statement.
+Proof.
+  exact (conj (fun orc e root bs => conj (CodecDecCostProofs.decode_document_c_fst orc e root bs)
+                                         (CodecDecCostBound.decode_document_steps orc e root bs))
+              (fun orc e root kvs => conj (CodecDecQueryCostProofs.decode_query_c_fst orc e root kvs)
+                                          (CodecDecQueryCostProofs.decode_query_steps orc e root kvs))).
+Qed.
+Print Assumptions C06_time_clause_step_counts.
+
 (* the pieces: a container-valued parameter costs at most the bytes of its (trimmed) text, propertyAtPath
    at most one step per component beyond the work on the values *)
 Theorem C06_query_steps_container_parameter : forall orc e is_oneof ps v sub,
